@@ -1338,6 +1338,7 @@ func (fr *frame) baseEnv(st *State) *Env {
 	if fr.iterated != "" {
 		env.names["iterated"] = TV{fr.iterated, "Int", types.Typ[types.Int]}
 	}
+	env.param = func(name string) (TV, bool) { return fr.paramLookup(name, fr.entryState) }
 	env.addrOf = func(name string) (string, *addr, types.Type, bool) {
 		for _, fv := range fr.fn.FreeVars {
 			if fv.Name() == name {
